@@ -63,6 +63,7 @@ type Storage struct {
 	RespKey  *key.CertificateAndKey
 	MetaKey  *key.CertificateAndKey
 	Calls    []Call
+	Tagged   map[string][]Call
 	Faults   []Fault
 	Fired    []Fault
 	counts   map[string]int
@@ -81,6 +82,30 @@ func (s *Storage) ResetLog() {
 	s.Calls = nil
 	s.Fired = nil
 	s.counts = map[string]int{}
+}
+
+type tagKey struct{}
+
+// WithTag marks a request so that the storage calls made on its behalf can be told apart under concurrency
+func WithTag(ctx context.Context, tag string) context.Context {
+	return context.WithValue(ctx, tagKey{}, tag)
+}
+
+// LogFor returns the calls made with the given tag
+func (s *Storage) LogFor(tag string) []Call {
+	s.mu.Lock()
+	defer s.mu.Unlock()
+	return append([]Call(nil), s.Tagged[tag]...)
+}
+
+func (s *Storage) enterCtx(ctx context.Context, op string, args ...string) string {
+	if tag, ok := ctx.Value(tagKey{}).(string); ok {
+		if s.Tagged == nil {
+			s.Tagged = map[string][]Call{}
+		}
+		s.Tagged[tag] = append(s.Tagged[tag], Call{op, args})
+	}
+	return s.enter(op, args...)
 }
 
 // enter logs the call and returns the fault kind to apply ("" = none)
@@ -116,25 +141,25 @@ func faultyKey(k *key.CertificateAndKey, kind string) (*key.CertificateAndKey, e
 	return nil, fmt.Errorf("unknown fault kind %s", kind)
 }
 
-func (s *Storage) GetCA(context.Context) (*key.CertificateAndKey, error) {
+func (s *Storage) GetCA(ctx context.Context) (*key.CertificateAndKey, error) {
 	s.mu.Lock()
 	defer s.mu.Unlock()
-	return faultyKey(s.RespKey, s.enter("GetCA"))
+	return faultyKey(s.RespKey, s.enterCtx(ctx, "GetCA"))
 }
-func (s *Storage) GetMetadataSigningKey(context.Context) (*key.CertificateAndKey, error) {
+func (s *Storage) GetMetadataSigningKey(ctx context.Context) (*key.CertificateAndKey, error) {
 	s.mu.Lock()
 	defer s.mu.Unlock()
-	return faultyKey(s.MetaKey, s.enter("GetMetadataSigningKey"))
+	return faultyKey(s.MetaKey, s.enterCtx(ctx, "GetMetadataSigningKey"))
 }
-func (s *Storage) GetResponseSigningKey(context.Context) (*key.CertificateAndKey, error) {
+func (s *Storage) GetResponseSigningKey(ctx context.Context) (*key.CertificateAndKey, error) {
 	s.mu.Lock()
 	defer s.mu.Unlock()
-	return faultyKey(s.RespKey, s.enter("GetResponseSigningKey"))
+	return faultyKey(s.RespKey, s.enterCtx(ctx, "GetResponseSigningKey"))
 }
 func (s *Storage) GetEntityByID(ctx context.Context, entityID string) (*serviceprovider.ServiceProvider, error) {
 	s.mu.Lock()
 	defer s.mu.Unlock()
-	if s.enter("GetEntityByID", entityID) != "" {
+	if s.enterCtx(ctx, "GetEntityByID", entityID) != "" {
 		return nil, fmt.Errorf("injected fault")
 	}
 	sp, ok := s.SPs[entityID]
@@ -149,7 +174,7 @@ func (s *Storage) GetEntityByID(ctx context.Context, entityID string) (*servicep
 func (s *Storage) GetEntityIDByAppID(ctx context.Context, appID string) (string, error) {
 	s.mu.Lock()
 	defer s.mu.Unlock()
-	if s.enter("GetEntityIDByAppID", appID) != "" {
+	if s.enterCtx(ctx, "GetEntityIDByAppID", appID) != "" {
 		return "", fmt.Errorf("injected fault")
 	}
 	e, ok := s.Apps[appID]
@@ -165,7 +190,7 @@ func (s *Storage) CreateAuthRequest(ctx context.Context, req *samlp.AuthnRequest
 	if req.Issuer != nil {
 		iss = req.Issuer.Text
 	}
-	if s.enter("CreateAuthRequest", acsUrl, protocolBinding, relayState, applicationID, req.Id, iss) != "" {
+	if s.enterCtx(ctx, "CreateAuthRequest", acsUrl, protocolBinding, relayState, applicationID, req.Id, iss) != "" {
 		return nil, fmt.Errorf("injected fault")
 	}
 	s.nextID++
@@ -177,7 +202,7 @@ func (s *Storage) CreateAuthRequest(ctx context.Context, req *samlp.AuthnRequest
 func (s *Storage) AuthRequestByID(ctx context.Context, id string) (models.AuthRequestInt, error) {
 	s.mu.Lock()
 	defer s.mu.Unlock()
-	if s.enter("AuthRequestByID", id) != "" {
+	if s.enterCtx(ctx, "AuthRequestByID", id) != "" {
 		return nil, fmt.Errorf("injected fault")
 	}
 	a, ok := s.Requests[id]
@@ -201,7 +226,7 @@ func setUser(u *User, info models.AttributeSetter) {
 func (s *Storage) SetUserinfoWithUserID(ctx context.Context, applicationID string, userinfo models.AttributeSetter, userID string, attributes []int) error {
 	s.mu.Lock()
 	defer s.mu.Unlock()
-	if s.enter("SetUserinfoWithUserID", applicationID, userID) != "" {
+	if s.enterCtx(ctx, "SetUserinfoWithUserID", applicationID, userID) != "" {
 		return fmt.Errorf("injected fault")
 	}
 	u, ok := s.Users[userID]
@@ -214,7 +239,7 @@ func (s *Storage) SetUserinfoWithUserID(ctx context.Context, applicationID strin
 func (s *Storage) SetUserinfoWithLoginName(ctx context.Context, userinfo models.AttributeSetter, loginName string, attributes []int) error {
 	s.mu.Lock()
 	defer s.mu.Unlock()
-	if s.enter("SetUserinfoWithLoginName", loginName) != "" {
+	if s.enterCtx(ctx, "SetUserinfoWithLoginName", loginName) != "" {
 		return fmt.Errorf("injected fault")
 	}
 	u, ok := s.Logins[loginName]
@@ -224,10 +249,10 @@ func (s *Storage) SetUserinfoWithLoginName(ctx context.Context, userinfo models.
 	setUser(u, userinfo)
 	return nil
 }
-func (s *Storage) Health(context.Context) error {
+func (s *Storage) Health(ctx context.Context) error {
 	s.mu.Lock()
 	defer s.mu.Unlock()
-	if s.enter("Health") != "" {
+	if s.enterCtx(ctx, "Health") != "" {
 		return fmt.Errorf("injected fault")
 	}
 	return nil
